@@ -381,11 +381,31 @@ void *array::insert(size_t off, size_t len, const void *data)
 	 && d->content_traits()) {
 		return 0;
 	}
+	/* data may be content of this array: it moves when the space is made */
+	ssize_t own = -1;
+	if (data && d
+	 && static_cast<const uint8_t *>(data) >= static_cast<const uint8_t *>(d->data())
+	 && static_cast<const uint8_t *>(data) < static_cast<const uint8_t *>(d->data()) + d->length()) {
+		own = static_cast<const uint8_t *>(data) - static_cast<const uint8_t *>(d->data());
+	}
 	/* private (copy of) data with space at offset */
 	if (!(dest = mpt_array_insert(this, off, len))) {
 		return 0;
 	}
-	if (data) {
+	if (own >= 0) {
+		const uint8_t *from = static_cast<const uint8_t *>(base());
+		size_t pre = 0;
+		/* part in front of the new space stayed, remainder is behind it now */
+		if ((size_t) own < off) {
+			pre = off - own;
+			if (pre > len) pre = len;
+			memmove(dest, from + own, pre);
+		}
+		if (pre < len) {
+			memmove(static_cast<uint8_t *>(dest) + pre, from + own + pre + len, len - pre);
+		}
+	}
+	else if (data) {
 		memcpy(dest, data, len);
 	} else {
 		memset(dest, 0, len);
